@@ -254,7 +254,10 @@ def check_rle(vals, num):
     fn = (lambda x: 0.5 * x + 0.25) if isf else (lambda x: 3 * x + 7)
     conv = [fn(v) for v in vals]
     for fname, build in (('RLE(fn).add', lambda: [r for r in [Rle.RLE(fn)] if [r.add(v) for v in vals] is not None][0]),
-                         ('create_rle(values, fn)', lambda: Rle.create_rle(list(vals), fn))):
+                         ('create_rle(values, fn)', lambda: Rle.create_rle(list(vals), fn)),
+                         # the encoding create_rle() returns is an RLE like any other: values added to it later are converted too
+                         ('create_rle(first half, fn) then add()', lambda: [r for r in [Rle.create_rle(list(vals[:n // 2]), fn)]
+                                                                           if [r.add(v) for v in vals[n // 2:]] is not None][0])):
         ok, got = _call(lambda: (lambda r: (r.num_values(), [r.value(i) for i in range(n)], r.first() if n else None, r.last() if n else None))(build()))
         ctol = (n + 2) * EPS * max([abs(v) for v in conv] or [0.0]) if isf else 0
         if not ok:
